@@ -1,9 +1,12 @@
 #!/bin/bash
-# usage: tools/seeded_matrix.sh [pattern]  -> prints "<id> <property> FLAGGED|MISSED|NOAPPLY" for every seeded change
+# usage: tools/seeded_matrix.sh [pattern]
+# prints "<id> <property> FLAGGED|MISSED|NOAPPLY <rules that fired>" for every seeded change
 cd "$(dirname "$0")/.."
 for d in seeded/${1:-*}/; do
   id=$(basename $d); prop=${id%%-*}
-  out=$(tools/mutest.sh $prop $d/patch.diff 2>&1 | tail -1)
-  case "$out" in FLAGGED*) s=FLAGGED;; MISSED*) s=MISSED;; *) s="NOAPPLY";; esac
-  echo "$id $prop $s"
+  out=$(MUTEST_LINES=200 tools/mutest.sh $prop $d/patch.diff 2>&1)
+  last=$(echo "$out" | tail -1)
+  rules=$(echo "$out" | grep -o "violated R[0-9a-z@/]*" | awk '{print $2}' | sort -u | tr '\n' ',' | sed 's/,$//')
+  case "$last" in FLAGGED*) s=FLAGGED;; MISSED*) s=MISSED;; *) s="NOAPPLY";; esac
+  echo "$id $prop $s $rules"
 done
